@@ -185,6 +185,10 @@ func (w *World) verifyFunction(fn *ssa.Function, blk *Block, opts *Options) *Exe
 			if label == "" {
 				label = fmt.Sprintf("E%d", c.Line)
 			}
+			if c.Checked && ex.opts != nil && ex.opts.GhostOnly {
+				ex.oblige(fr, st2, "ghost-post", label, token.NoPos, t)
+				continue
+			}
 			ex.oblige(fr, st2, "post", label, token.NoPos, t)
 		}
 		for _, c := range clauses {
